@@ -276,7 +276,12 @@ class Machine:
                   'iter', 'iter', 'class', 'class', 'qual', 'query',
                   'invoke', 'invoke', 'classmod']
         g = groups[draw(S._I100) % len(groups)]
-        if draw(S._I100) < 7:
+        prev = self.last_call.get('X')
+        prev_op = prev[0]['op'] if prev else None
+        # more often after operations that receive objects of the caller
+        if draw(S._I100) < (30 if prev_op in (
+                'ModifyInstance', 'CreateInstance', 'InvokeMethod',
+                'ModifyClass', 'CreateClass', 'SetQualifier') else 6):
             return {'op': 'Again'}
         tri = lambda: draw(S._TRI)  # noqa: E731
         ns_arg = lambda: draw(st.sampled_from(  # noqa: E731
